@@ -379,3 +379,59 @@ def ffs_forward_contract(return_params):
     c = Contract("fit_from_string", params, ensures=ensures, setup=setup, region=_ffs_tail_region, raises=lambda S, a, e: z3.BoolVal(False))
     c.region_name = "hand-over to single_function"
     return c
+
+
+# ------------------------------------------------------------ tree_to_aifeyn: the single-tree code-length API (C08)
+def tree_to_aifeyn_contract():
+    """Data flow of fit_single.tree_to_aifeyn with every callee opaque: the tree code length returned is the one aifeyn_complexity computes for
+    `labels` with the parameter list a0 .. a(max_param-1), where max_param is get_max_param of the canonical string of the tree of `labels`
+    (the same wiring as in the library pipeline and in single_function); the complexity returned is len(labels)."""
+    def setup(eng, st, args):
+        st.ghost["calls"] = {}
+
+        def rec(name, ret):
+            def m(eng_, st_, a, kw, node):
+                c = dict(st_.ghost["calls"])
+                if name in c:
+                    c[name + "#2"] = (a, kw)
+                c[name] = (a, kw)
+                r = ret(eng_, st_, a, kw)
+                c[name + ".ret"] = r
+                st_.ghost["calls"] = c
+                return r
+            return m
+        fl = lambda n: VLabel(z3.Const(fresh_name(n), Label))
+        eng.models["generator.labels_to_shape"] = rec("labels_to_shape", lambda e, s, a, k: e.fresh(T.list(T.int), "shape", s))
+        eng.models["generator.check_tree"] = rec("check_tree", lambda e, s, a, k: VTuple([VBool(z3.Bool(fresh_name("succ"))), VNone(), e.fresh(T.list(T.fn), "tree", s)]))
+        eng.models["generator.node_to_string"] = rec("node_to_string", lambda e, s, a, k: fl("fstr"))
+        eng.models["simplifier.get_max_param"] = rec("get_max_param", lambda e, s, a, k: VInt(z3.Int("mp")))
+        eng.models["generator.aifeyn_complexity"] = rec("aifeyn_complexity", lambda e, s, a, k: e.fresh(T.float, "aifeyn", s))
+        st.assume(z3.Int("mp") >= 0)
+
+    def ensures(S, a, res):
+        C = S.st.ghost["calls"]
+        for n in ("labels_to_shape", "check_tree", "node_to_string", "get_max_param", "aifeyn_complexity"):
+            if n not in C:
+                raise Unsupported("tree_to_aifeyn no longer calls %s" % n)
+        same = lambda x, y: z3.BoolVal(isinstance(x, VRef) and isinstance(y, VRef) and x.addr == y.addr)
+        lab = lambda x, y: (x.t == y.t) if isinstance(x, VLabel) and isinstance(y, VLabel) else z3.BoolVal(False)
+        out = [("exactly one call each", z3.BoolVal(not any(k.endswith("#2") for k in C)))]
+        out.append(("shape and string come from `labels`", z3.And(same(C["labels_to_shape"][0][0], a["labels"]), same(C["check_tree"][0][0], C["labels_to_shape.ret"]),
+                                                                 same(C["node_to_string"][0][2], a["labels"]), same(C["node_to_string"][0][1], C["check_tree.ret"].items[2]))))
+        gm = S.seq(C["get_max_param"][0][0])
+        mp = C["get_max_param.ret"].t
+        out.append(("max_param is that of the tree's string", z3.And(gm.len == 1, lab(gm.get(z3.IntVal(0)), C["node_to_string.ret"]))))
+        aa = C["aifeyn_complexity"][0]
+        pl = S.seq(aa[1])
+        j = z3.Int("j!pl")
+        fmt = S.eng.label_fn("fmt:a%i", z3.IntSort())
+        out.append(("the code length is computed for `labels` with the parameter list a0 .. a(max_param-1)",
+                    z3.And(same(aa[0], a["labels"]), pl.len == mp, z3.ForAll([j], z3.Implies(z3.And(0 <= j, j < pl.len), pl.get(j).t == fmt(j))))))
+        if not (isinstance(res, VTuple) and len(res.items) == 2):
+            return out + [("returns (aifeyn, complexity)", z3.BoolVal(False))]
+        out.append(("returns that code length and len(labels)", z3.And(fsame(res.items[0], C["aifeyn_complexity.ret"]),
+                                                                         S.eng.as_int(res.items[1]) == S.seq(a["labels"]).len if isinstance(res.items[1], (VInt, VBool)) else z3.BoolVal(False))))
+        return out
+
+    return Contract("tree_to_aifeyn", {"labels": T.list(T.label), "basis_functions": T.list(T.label), "verbose": (T.bool, VBool(True))},
+                    ensures=ensures, setup=setup, raises=lambda S, a, e: z3.BoolVal(False))
